@@ -23,14 +23,17 @@ SHRINK_LISTS = [('outcomes',)]
 EXPECTED_PROBES = ['reset_after_ready', 'limit_capped_by_max_wait',
                    'limit_reached_with_draw_near_1', 'draw_zero',
                    'exit_at_first_backoff', 'zero_wait_config',
-                   'long_failure_run', 'close_while_connecting']
+                   'long_failure_run', 'close_while_connecting',
+                   'limit_beyond_2_10', 'falsy_exit_event']
 
 OUTCOMES = ['gaierror', 'refused', 'request_fail', 'rejected',
             'drop_before_ready', 'drop_after_ready', 'graceful',
             'protocol_error', 'ping_timeout', 'graceful_then_rst',
             'client_closes_then_rst']
 WAITS = [(0, 0), (0, 1), (5, 30), (1, 1), (0.5, 1000), (3, 3.5), (0, 30),
-         (2, 70)]
+         (2, 70),
+         # (limits that keep doubling beyond 2^10 and 2^16 seconds)
+         (0, 3600), (10, 100000), (0, 10 ** 7)]
 ONE = 1.0 - 2.0 ** -53
 
 
@@ -53,9 +56,13 @@ def make_case(family, i, rng, tier):
                 'close_on_connecting': None}
     n = rng.choice([3, 4, 6, 10, 20, 40])
     mode = rng.choice(['mixed', 'mixed', 'fail_run', 'mostly_ready'])
+    if rng.random() < 0.08:
+        n, mode = 30, 'all_fail'
     outs = []
     for k in range(n):
-        if mode == 'fail_run':
+        if mode == 'all_fail':
+            o = rng.choice(['gaierror', 'refused', 'request_fail'])
+        elif mode == 'fail_run':
             o = rng.choice(['gaierror', 'refused', 'request_fail', 'rejected',
                             'drop_before_ready']) if rng.random() < 0.9 \
                 else rng.choice(OUTCOMES)
@@ -76,6 +83,8 @@ def make_case(family, i, rng, tier):
             'stop_at': rng.choice([None, None, 0, 1, rng.randrange(0, n)]),
             # every argument of persist() by position, in the documented order
             'positional': rng.random() < 0.3,
+            # the caller's event object is false while it is not set
+            'falsy_event': rng.random() < 0.25,
             'app_sends': rng.random() < 0.4,
             # close() from the Connecting handler of one attempt: that attempt
             # fails, persist() must carry on
@@ -158,12 +167,13 @@ def build(case):
                         'ping_rate': case['ping_rate'],
                         'ping_timeout': case['ping_timeout'],
                         'stop_at': stop_at,
-                        'positional': bool(case.get('positional'))},
+                        'positional': bool(case.get('positional')),
+                        'falsy_event': bool(case.get('falsy_event'))},
             'random': case['draws'], 'conns': conns, 'app': app,
             'max_polls': 50000, 'max_events': 50000,
             # 1300 attempts with waits of up to 1000 s are months of
             # simulated time: the clock budget is about hangs, not about that
-            'max_time_us': 10 ** 14}, stop_at
+            'max_time_us': 10 ** 17}, stop_at
 
 
 def execute(case):
@@ -242,6 +252,8 @@ def execute(case):
             reset_seen = True
         if k_fail >= 6:
             res.stats['probe:long_failure_run'] += 1
+        if k_fail > 10 and span > 1024 and draw >= ONE:
+            res.stats['probe:limit_beyond_2_10'] += 1
         if 2 ** k_fail > span:
             res.stats['probe:limit_capped_by_max_wait'] += 1
         tol = 1e-9 * max(1.0, abs(limit))
@@ -274,6 +286,8 @@ def execute(case):
             res.bad('C16/no_wait_after_backoff', 'BackOff #%d' % j)
     if case.get('close_on_connecting') is not None:
         res.stats['probe:close_while_connecting'] += 1
+    if case.get('falsy_event'):
+        res.stats['probe:falsy_exit_event'] += 1
     if stop_at == 0:
         res.stats['probe:exit_at_first_backoff'] += 1
     if mx == 0:
